@@ -42,9 +42,14 @@ func vfKeysForServed(r *ref.Rand, n int, cfg store.VFConfig) []string {
 		served[b] = true
 	}
 	var keys []string
+	have := map[string]bool{}
 	for len(keys) < n {
 		for _, k := range model.GenKeys(r, n) {
+			if have[k] {
+				continue
+			}
 			if cfg.Served == nil || served[ref.BucketOf(ref.KeyHash([]byte(k)), cfg.NumBucket)] {
+				have[k] = true
 				keys = append(keys, k)
 				if len(keys) == n {
 					break
